@@ -232,16 +232,14 @@ std::ostream& instance_t::print_parameters(std::ostream& os) const
 
 std::ostream& instance_t::print_arguments(std::ostream& os) const
 {
-    auto b = std::begin(parameters), e = std::end(parameters);
-    if (b != e) {
+    // The free parameters of a partial instance (the first "unbound" ones) are not bound to an argument.
+    const char* separator = "";
+    for (auto b = std::begin(parameters), e = std::end(parameters); b != e; ++b) {
         auto itr = mapping.find(*b);
-        assert(itr != std::end(mapping));
-        itr->second.print(os);
-        while (++b != e) {
-            itr = mapping.find(*b);
-            assert(itr != std::end(mapping));
-            itr->second.print(os << ", ");
-        }
+        if (itr == std::end(mapping))
+            continue;
+        itr->second.print(os << separator);
+        separator = ", ";
     }
     return os;
 }
